@@ -54,6 +54,7 @@ func checkC11(c *Ctx) {
 	ruleEmphS(c)
 	ruleEmphFlank(c)
 	ruleEmphEdge(c)
+	ruleEdgeLine(c)
 	ruleEmphClear(c)
 }
 
